@@ -1,4 +1,4 @@
-\* EXPECTED VIOLATION (hypothesis G02-H1): without AssumeSlowL1 sync must revert a block the pruner deleted
+\* EXPECTED VIOLATION: the candidate repair (the pruner compares the hashes of the L1 head and of the head event with the local chain) closes the L1 path but not the catch-up path (a stale block stored while L1 is ahead)
 CONSTANTS
   InitLen = 2
   MaxLen = 4
@@ -12,7 +12,7 @@ CONSTANTS
   L2PerPrune = 1
   AssumeFinality = TRUE
   AssumeSlowL1 = FALSE
-  FixHashChecks = FALSE
+  FixHashChecks = TRUE
 SPECIFICATION Spec
 INVARIANTS P2_NeverStuck
 CHECK_DEADLOCK FALSE
